@@ -180,6 +180,8 @@ def _install():
     import tempfile
     import fsic
     os.chdir(tempfile.mkdtemp(prefix='c13_worker_'))
+    import warnings
+    _BASE_FILTERS[:] = list(warnings.filters)       # after importing fsic, BEFORE anything is parsed
     import unicodedata      # noqa: F401 - CPython imports it lazily the first time compile() meets a non-ASCII identifier
     for txt in ('Y = C + exp(X[-1]) + {a} + <e>', '```\nx = 1\n```', 'Y = (', 'Y = \xe9', '\xe9 = 1', 'Y = X[\xe9]', '`\xe9 = 1`'):
         try:
@@ -209,13 +211,51 @@ def _with_cause(e):
     return type(e).__name__ + ('<-' + type(c).__name__ if c is not None else '')
 
 
+_BASE_FILTERS = []
+
+
+def _globals_fp():
+    """fingerprint of the module globals of every loaded fsic module: names, value types, sizes of containers, identity of
+    everything else (a cache that grows, a rebound global, a new name all change it)"""
+    out = []
+    for name in sorted(m for m in sys.modules if m == 'fsic' or m.startswith('fsic.')):
+        mod = sys.modules.get(name)
+        if mod is None:
+            continue
+        for k, v in sorted(vars(mod).items()):
+            if k.startswith('__'):
+                continue
+            if isinstance(v, (dict, list, set, frozenset, tuple, str, bytes)):
+                out.append((name, k, type(v).__name__, len(v)))
+            else:
+                out.append((name, k, type(v).__name__, id(v)))
+    return tuple(out)
+
+
+def _open_fds():
+    try:
+        return len(os.listdir('/proc/self/fd'))
+    except OSError:
+        return -1
+
+
+def _reset_process_state():
+    """before every case: the warnings configuration recorded when the worker started (a leaked filter is then visible
+    after EVERY call, not only the first)"""
+    import warnings
+    warnings.filters[:] = list(_BASE_FILTERS)
+    if hasattr(warnings, '_filters_mutated'):
+        warnings._filters_mutated()
+
+
 def _snapshot():
     import builtins
     import warnings
     import fsic
     return (frozenset(sys.modules), frozenset(os.listdir('.')), frozenset(vars(builtins)), tuple(sorted(os.environ.items())),
-            len(warnings.filters), repr(fsic.parser.replacement_function_names), fsic.parser.term_re.pattern, os.getcwd(),
-            frozenset(k for k in vars(fsic.parser) if not k.startswith('__')))
+            tuple(repr(f) for f in warnings.filters), repr(fsic.parser.replacement_function_names), fsic.parser.term_re.pattern,
+            fsic.parser.equation_re.pattern, os.getcwd(), _globals_fp(), _open_fds(), sys.getrecursionlimit(),
+            tuple(sys.path), id(warnings.showwarning))
 
 
 def _classify_count(s, texts, emitted, unclosed):
@@ -444,6 +484,7 @@ def _enum_strings(case):
 def impl(case):
     import hashlib
     _install()
+    _reset_process_state()
     if case['k'] == 's':
         snap = _snapshot()
         o = observe(case['s'])
@@ -727,7 +768,7 @@ def oracle(case, obs):
                 seen.add(sig)
                 fails.append({'sig': 'C13|' + sig, 'what': '%s — input %s' % (what, json.dumps(s)[:160])})
     if obs.get('side_effect'):
-        fails.append({'sig': 'C13|side-effect', 'what': 'sys.modules / cwd listing / builtins / environment / parser module globals changed while parsing'})
+        fails.append({'sig': 'C13|side-effect', 'what': 'process-global state changed while parsing / building: one of sys.modules, files in cwd, builtins, os.environ, warnings.filters, fsic module globals, open file descriptors, sys.path, recursion limit'})
     return fails
 
 
